@@ -32,6 +32,12 @@ def main(argv):
     else:
         fam = {f.name: f for f in m.FAMILIES}[payload['family']]
         try:
+            # the `pre:` lines of the generated condition are part of the harness' precondition
+            if fam.pre:
+                env = {n: v for (n, _), v in zip(fam.params, payload['args'])}
+                for cond in fam.pre(tuple(payload['sel'])):
+                    if not eval(cond, {}, env):
+                        raise rt.Rejected()
             r = fam.body(*payload['sel'], *payload['args'])
             verdict, detail = ('holds', '') if r else ('fails', 'harness body returned False')
         except rt.Rejected:
